@@ -905,6 +905,14 @@ func inlineNewHelpers(c *Ctx, known map[string]bool, seq *int) (out map[string][
 			}
 			for _, d := range f.Decls {
 				if fd, ok := d.(*ast.FuncDecl); ok && fd.Body != nil {
+					// a helper whose body was already prepared for expansion in this round has had its identifiers
+					// renamed in place: its own calls are expanded in the next round (in the copies and, if it
+					// survives, in the declaration)
+					if o, _ := p.TypesInfo.Defs[fd.Name].(*types.Func); o != nil {
+						if ce := callees[o]; ce != nil && ce.bodyText != "" {
+							continue
+						}
+					}
 					in.cur = fd
 					in.block(fd.Body.List, nil)
 				}
